@@ -117,9 +117,10 @@ def materialise(case):
 def check_case(case):
     fmt = case["fmt"]
     data, argv = materialise(case)
-    res = run.run_decoder(fmt, data, argv, limit=30)
+    so = case.get("stdout", False)
+    res = run.run_decoder(fmt, data, argv, limit=30, stdout=so)
     if res.status == "hang":
-        res = run.run_decoder(fmt, data, argv, limit=120)
+        res = run.run_decoder(fmt, data, argv, limit=120, stdout=so)
         if res.status == "hang":
             raise Violation("decoder does not terminate on a %d-byte input (limit 120 s)" % len(data), case)
     if res.status == "fail":
@@ -155,6 +156,9 @@ def fault_cases(draw, fmts, use_fixtures=False):
     case = draw(_fault_cases(fmts, use_fixtures))
     if case["fmt"] == "max" and draw(st.integers(0, 3)) == 0:
         case["extra_argv"] = ["-i"]  # header errors are to be ignored
+    if case["fmt"] in ("hrs", "max", "mge", "cm3", "rat", "pix") and draw(st.integers(0, 3)) == 0:
+        # the image goes to standard output (output argument left out, or '-'): failure must still be reported, success still means a complete image
+        case["stdout"] = draw(st.sampled_from([True, "dash"]))
     return case
 
 
